@@ -1014,7 +1014,7 @@ async fn node_leg(ctx: &Ctx, args: &Args, rounds: u32, idx: u64) {
     let _ = node.srv.send_stop_signal_and_await_shutdown().await;
 }
 
-fn run_node_legs(ctx: &Ctx, args: &Args, nodes: u64, rounds: u32) {
+fn run_node_legs(ctx: &Ctx, args: &Args, nodes: u64, rounds: u32, only: Option<u64>) {
     let rt = match tokio::runtime::Builder::new_multi_thread().worker_threads(3).enable_all().build() {
         Ok(rt) => rt,
         Err(e) => {
@@ -1023,6 +1023,9 @@ fn run_node_legs(ctx: &Ctx, args: &Args, nodes: u64, rounds: u32) {
         }
     };
     for idx in 0..nodes {
+        if only.map(|o| o != idx).unwrap_or(false) {
+            continue;
+        }
         if let Err(p) = catch(|| rt.block_on(node_leg(ctx, args, rounds, idx))) {
             ctx.report.inconclusive(format!("node leg: harness panic: {p}"));
         }
@@ -1044,11 +1047,12 @@ pub fn run(args: &Args, report: &Report) -> (&'static str, bool, Vec<&'static st
             args2.seed = s;
         }
         let nodes = args.by_tier(2u64, 4);
+        let only = replaying.as_ref().and_then(|r| r.get("node")).and_then(|n| n.as_u64());
         let rounds = args.by_tier(12u32, 16);
         Some(
             std::thread::Builder::new()
                 .stack_size(64 << 20)
-                .spawn(move || run_node_legs(&ctx2, &args2, nodes, rounds))
+                .spawn(move || run_node_legs(&ctx2, &args2, nodes.max(only.map(|o| o + 1).unwrap_or(0)), rounds, only))
                 .expect("spawn"),
         )
     } else {
@@ -1071,7 +1075,7 @@ pub fn run(args: &Args, report: &Report) -> (&'static str, bool, Vec<&'static st
 
     if replaying.is_none() && ctx.selftest == 0 {
         // observed at quick seed 1: about 2x the figures below
-        let k = args.by_tier(1u64, 6);
+        let k = args.by_tier(1u64, 8);
         for (key, min) in [
             ("c45.a.blocks", 380u64),
             ("c45.a.answer.success", 1200),
